@@ -1,4 +1,5 @@
 """C06 - decided on the Retry facet (Retry.tla: retry budget/timing C06, server selection C09, timers C07)."""
+import mutators
 import simlib
 import vlib
 
@@ -17,7 +18,7 @@ def run(ctx):
     else:
         gens = [{"module": "Gen_C06.tla", "cfg": "Gen_C06_thorough.cfg", "name": "bfs"},
                 {"module": "Gen_C06.tla", "cfg": "Gen_C06_sim.cfg", "name": "sim", "simulate": 2000, "depth": 14}]
-    simlib.engine_check(ctx, gens, FACETS, labels=LABELS)
+    simlib.engine_check(ctx, gens, FACETS, labels=LABELS, selftests=mutators.RETRY)
     extra(ctx)
 
 
